@@ -14,6 +14,11 @@ MAP = [  # (substring of the commit subject, property)
  ("None return value of complex type", "C02"), ("ModelBase.to_bytes", "C02"),
  ("null member of complex type", "C02"), ("members of a class used more than once", "C03"),
  ("strict_arrays rejected arrays", "C03"), ("SOAP 1.2 fault whose detail dict", "C09"),
+ ("xsi:type could substitute a value of any registered class", "C04"),
+ ("document nodes of the wrong kind escaped", "C04"), ("MessagePack handed booleans, maps and lists", "C04"),
+ ("malformed base64 or hex text raised binascii.Error", "C10"),
+ ("numbers 0 and 1 were accepted for Boolean", "C04"), ("msgpack-rpc message whose type field is a sequence", "C10"),
+ ("text or numbers in a raw (unencoded) binary member", "C04"),
  ("Ignored return value of a method with several", "C18"), ("NullServer misaligned the members", "C18"),
  ("bare methods lost their argument in dict documents", "C18"),
  ("unexpanded entity reference in a request", "C17"), ("SOAP-with-attachments requests were parsed", "C17"),
